@@ -94,7 +94,25 @@ std::vector<double> genBreakpoints(Rng &r, int nseg)
     std::vector<double> bp(nseg + 1);
     static const double starts[] = {0.0, -1.0, 1.0, 1e3, -1e3, 1e6, -1e6, 0.5};
     bp[0] = r.coin(0.6) ? starts[r.range(0, 7)] : r.uni(-100, 100);
-    int gapmode = r.range(0, 4);
+    int gapmode = r.range(0, 6);
+    if (gapmode >= 5)
+    {
+        // uniform grid with a step that is not a binary fraction, accumulated or as i*h
+        double h = r.pick(std::vector<double>{0.1, 0.3, 1.0 / 3.0, 0.7, 0.01, 1e-3});
+        if (gapmode == 5)
+            for (int i = 0; i < nseg; ++i)
+                bp[i + 1] = bp[i] + h;
+        else
+        {
+            double b0 = bp[0];
+            for (int i = 0; i <= nseg; ++i)
+                bp[i] = b0 + i * h;
+        }
+        for (int i = 0; i < nseg; ++i)
+            if (!(bp[i + 1] > bp[i]))
+                bp[i + 1] = std::nextafter(bp[i], INFINITY);
+        return bp;
+    }
     for (int i = 0; i < nseg; ++i)
     {
         double g;
